@@ -412,7 +412,19 @@ fn splitcat(sample: ArrayView3<f32>) -> Array3<f32> {
 /// # References
 /// - STAN Reference Manual, Section on R-hat and Effective Sample Size
 pub fn split_rhat_mean_ess(sample: ArrayView3<f32>) -> (Array1<f32>, Array1<f32>) {
-    let splitted = splitcat(sample); // shape: (2c, n/2, p)
+    let mut splitted = splitcat(sample); // shape: (2c, n/2, p)
+
+    // Both diagnostics are invariant under shifts. Subtracting a pivot per parameter (its first
+    // draw) keeps the f32 sums below accurate when the values are large compared with their
+    // spread; without it the chain means of 2500 draws of size 1e5 are off by more than the
+    // spread and R-hat collapses towards 1.
+    for mut param in splitted.axis_iter_mut(Axis(2)) {
+        if let Some(&pivot) = param.first() {
+            if pivot.is_finite() {
+                param.mapv_inplace(|v| v - pivot);
+            }
+        }
+    }
     let (within, var) = withinvar(splitted.view());
     (
         rhat(within.view(), var.view()),
